@@ -112,9 +112,19 @@ class Transform(Unit):
                     if spec.ub[j] < spec.lb[j]:
                         spec.ub[j] = INF
                 sc["vw"][j] = g.rng.randint(4, 8)
+                huge_j = j
+            else:
+                huge_j = None
             xt = internal_point(g, spec, sc)
             yt = g.vec(spec.m, kmax=8, jmax=1)
             x0 = g.point_any(spec.lb, spec.ub)
+            if huge_j is not None:
+                # the points themselves stay small (products of 2^60-sized numbers are not binary64)
+                small = 0.0 if spec.lb[huge_j] <= 0.0 <= spec.ub[huge_j] else (spec.lb[huge_j] if abs(spec.lb[huge_j]) < 2.0 ** 40 else spec.ub[huge_j])
+                if abs(x0[huge_j]) >= 2.0 ** 40:
+                    x0[huge_j] = small
+                if abs(xt[huge_j]) >= 2.0 ** 40:
+                    xt[huge_j] = small * 2.0 ** sc["vw"][huge_j]
             if k % 5 == 2:
                 x0 = [float(round(v)) for v in x0]
             y0 = g.vec(spec.m, kmax=8, jmax=1)
